@@ -3,7 +3,12 @@ from ..mesh_attributes import Attribute
 from ...geometry import Vec
 import numpy as np
 from enum import Enum
+from urllib.parse import quote, unquote
 from ...config import NOT_AN_ID
+
+# characters of a string attribute value written as they are; the others (blanks, line breaks, #, ", [, ], %, ...) are percent-encoded
+# so that the value stays on its line and cannot be taken for a comment or a chunk header
+STRING_SAFE_CHARACTERS = "!$&'()*+,-./:;<=>?@^_`{|}~"
 
 class Chunk:
 
@@ -66,8 +71,8 @@ class Chunk:
             elif self.data_type == Attribute.Type.Complex:
                 self.data = [complex(x) for x in chunk_data[6:]]
             else:
-                # strings are kept as they are
-                self.data = chunk_data[6:]
+                # strings are percent-encoded by export_attribute
+                self.data = [unquote(x) for x in chunk_data[6:]]
 
         elif self.type == Chunk.Type.ATTS:
             self.n : int = int(chunk_data[2])
@@ -232,12 +237,16 @@ def export_attribute(f, size, container, attr, attr_name):
         if attr.elemsize==1:
             if attr.type==Attribute.Type.Bool: # should be written as 0 or 1 and not as "true" or "false"
                 f.write(f"{int(attr[i])}\n")
+            elif attr.type==Attribute.Type.String:
+                f.write(quote(str(attr[i]), safe=STRING_SAFE_CHARACTERS)+"\n")
             else:
                 f.write("{}\n".format(attr[i]))
         else:
             for j in range(attr.elemsize):
                 if attr.type==Attribute.Type.Bool:
                     f.write(f"{int(attr[i][j])}\n")
+                elif attr.type==Attribute.Type.String:
+                    f.write(quote(str(attr[i][j]), safe=STRING_SAFE_CHARACTERS)+"\n")
                 else:
                     f.write(f"{attr[i][j]}\n")
 
